@@ -67,7 +67,7 @@ class Store:
     @staticmethod
     def text(ident, k):
         realm, ns, name = ident
-        return "[%s|%s|%s|%d]{{ g }}{{ site }}{{ m }}" % (realm, ns, name, k)
+        return "[%s|%s|%s|%d]{{ g }}{{ site }}{{ m }}{{ bomb.v }}" % (realm, ns, name, k)
 
     def versions(self, ident):
         return self.entries.get(ident, [])
@@ -315,10 +315,32 @@ def outcome_of(fn):
         return ("err", type(e).__name__, str(e)[:200])
 
 
-def observe(t):
+class _Bomb:
+    """Render data whose use raises: a render of the returned template that fails half way."""
+
+    def __getitem__(self, k):
+        raise ValueError("user data failed")
+
+    def __liquid__(self):
+        raise ValueError("user data failed")
+
+
+HELD = []      # templates a caller keeps a reference to for the rest of the run (cleared per run)
+
+
+def observe(t, op=None):
     """What a requester can see of a returned template."""
     if not isinstance(t, BoundTemplate):
         return {"bad": repr(t)[:100]}
+    if op is not None and op.get("failing_use"):
+        # the caller first renders it with data that raises in the middle of the render; whatever that
+        # leaves behind on a (cached, shared) template object must not show in the next render
+        try:
+            t.render(bomb=_Bomb())
+        except Exception:  # noqa: BLE001
+            pass
+    if op is not None and op.get("keep"):
+        HELD.append(t)     # ... and keeps the object (evicted entries stay alive in the caller's hands)
     out = outcome_of(lambda: t.render(probe="P"))
     return {"name": t.name, "path": str(t.path), "matter": dict(t.matter), "src": str(t),
             "globals": dict(t.globals), "out": list(out)}
@@ -418,6 +440,11 @@ class C23:
                 op["local_ns"] = rng.choice(["u1", "u2", 0])
             if via == "ctx" and rng.chance(0.5):
                 op["ctx_reuse"] = True     # the caller keeps ONE render context for all its requests
+            if not via.startswith("tag:"):
+                if rng.chance(0.15):
+                    op["failing_use"] = True
+                if rng.chance(0.3):
+                    op["keep"] = True
             if via.startswith("tag:") and rng.chance(0.35):
                 # the page that includes / renders / extends the partial is itself a stored template, loaded
                 # through the same loader (cached once, shared by every tenant) instead of parsed per request
@@ -592,6 +619,7 @@ class C23:
         res = new_result()
         st = res["stats"]
         w = World(sc, st)
+        del HELD[:]
         w.fs = SimFS()
         saved_path = fsl_mod.Path
         fsl_mod.Path = FaultyPath
@@ -698,10 +726,10 @@ class C23:
                     return lambda: wrapper.render(**data)
                 return lambda: wrapper.render_async(**data)
             if op["mode"] == "sync":
-                return lambda: observe(env.get_template(name, globals=g, **kwargs))
+                return lambda: observe(env.get_template(name, globals=g, **kwargs), None if inline else op)
 
             async def go():
-                return observe(await env.get_template_async(name, globals=g, **kwargs))
+                return observe(await env.get_template_async(name, globals=g, **kwargs), None if inline else op)
             return go
 
         def model_answer(op):
